@@ -93,7 +93,7 @@ def reg(pid, level, rules, explanation):
 
 reg("C01", "other",
     [T.t_bij, P.t_prop3, L.l_eq, B.l_cover, P.l_propdec, D.h_dispatch3, T.t_varint_readers, PL.s_persist, PL.h_total,
-     B.t_bits, C.h_payfmt, L.t_ctl, P3.h_shortform, TR.l_trace, P3.t_prims, T.t_proto, P.h_bytevals, T.t_varint_writer, P.t_props_whole, P.t_props_encvalues, IO.s_collect, P3.l_entries, P3.h_reason_bytes],
+     B.t_bits, C.h_payfmt, L.t_ctl, P3.h_shortform, TR.l_trace, P3.t_prims, T.t_proto, P.h_bytevals, T.t_varint_writer, P.t_props_whole, P.t_props_encvalues, IO.s_collect, P3.l_entries, P3.h_reason_bytes, P.t_props],
     "NOT decided: equality of the decoded value with the original over the unbounded value space (a runtime quantity). Decided: structural necessary conditions of a round trip, each exact for what it compares: "
     "T-bij (every wire-code enum's `as u8` discriminant table and its from_u8 table, evaluated for all 256 bytes, are inverse "
     "bijections), T-prop3 (decode / encode / encode_len of every v5 property set handle the same ids wired to the same field), L-eq "
@@ -136,7 +136,7 @@ reg("C03", "other",
 
 reg("C04", "other",
     [T.t_codes, T.t_hdr, P.t_props, P.t_props_whole, P.h_proplen, P.h_dup, P.h_bytevals, P.l_propdec, PL.h_exactfill, B.t_bits, B.h_checked_sub,
-     B.l_consume, C.h_ctor, C.h_utf8, T.t_varint_readers, P3.h_shortform, P3.t_prims, C.h_accessors, T.t_width, TR.l_trace, IO.s_collect, T.t_proto, P3.l_entries, P3.h_reason_bytes, D.h_dispatch3],
+     B.l_consume, C.h_ctor, C.h_utf8, T.t_varint_readers, P3.h_shortform, P3.t_prims, C.h_accessors, T.t_width, TR.l_trace, IO.s_collect, T.t_proto, P3.l_entries, P3.h_reason_bytes, D.h_dispatch3, T.t_tname, T.t_flen],
     "NOT decided: language equality between the strict decoder's accepted set and the MQTT grammar, nor the conjunction of the "
     "clauses below into it. Decided exactly against independent OASIS tables (spec_mqtt.py): header nibble/flag table for all 256 "
     "control bytes (T-hdr), accepted domain of every code table (T-codes), permitted property set per packet and its rejecting default "
@@ -185,7 +185,7 @@ reg("C07", "other",
 
 reg("C08", "other",
     [PL.h_total, PL.h_cap, B.l_consume, P.l_propdec, P.h_proplen, T.t_width, T.t_varint_readers, PL.s_persist, P3.h_shortform,
-     C.h_utf8, IO.s_readers, P3.t_prims, T.t_varint_writer, T.t_bij, PL.h_stateclone, PL.h_borrow],
+     C.h_utf8, IO.s_readers, P3.t_prims, T.t_varint_writer, T.t_bij, PL.h_stateclone, PL.h_borrow, D.h_hdr1],
     "NOT decided: equality of a decoded sequence with a generated one over all histories. Decided: the per-packet consumption "
     "invariant from which framing follows by induction: the poll decoder reads 1 + (1 + var_idx) header bytes and exactly "
     "remaining_len body bytes and reports their sum (P-header, P-complete, P-body, S-persist); every accounting body decoder consumes "
@@ -291,7 +291,7 @@ reg("C18", "proof",
     "the constructor accepts the string read -- no further condition on the value -- and a refusal becomes InvalidResponseTopic (H-topicvals).")
 
 reg("C20", "other",
-    [RA.h_raise, RA.h_order, P3.h_erreq, C.h_protoread, P.t_props, P.t_props_whole, P.h_proplen, P.h_dup, P.h_bytevals, D.h_dispatch3, PL.h_exactfill, D.h_block,
+    [RA.h_raise, RA.h_order, P3.h_erreq, C.h_protoread, T.t_tname, T.t_flen, P.t_props, P.t_props_whole, P.h_proplen, P.h_dup, P.h_bytevals, D.h_dispatch3, PL.h_exactfill, D.h_block,
      IO.h_noswallow, T.t_codes, B.h_checked_sub, B.t_bits, C.h_utf8],
     "NOT decided: that a given byte-level malformation of a given packet reaches the site the catalogue names (path feasibility "
     "over inputs). Decided: every raise site carries the value its guard tested (H-raise payload rule), each documented variant is "
